@@ -329,6 +329,8 @@ func TestC03(t *testing.T) {
 		"wrong-id", "wrong-version", "empty-levels", "missing-member", "missing-signature", "signature-short", "signature-not-hex",
 		"header-missing", "header-empty", "header-two-values", "header-one-cert", "header-three-certs", "header-wrong-pem-type", "header-not-escaped", "header-swapped-order", "header-other-key-case",
 		"signed-omits-field-unsigned-supplies-it", "signed-omits-field-unsigned-supplies-it", "signer-clones-issuer-and-serial-lookalike-root", "signer-clones-issuer-and-serial-genuine-root", "signer-clones-issuer-and-serial-bitflipped-genuine-cert",
+		"exact-key-unsigned-other-key-signed-after", "exact-key-unsigned-other-key-signed-before", "exact-key-unsigned-other-key-signed-after",
+		"foreign-signer-not-yet-valid", "foreign-signer-expired", "foreign-signer-not-yet-valid-header-genuine-root",
 		"control-canonical",
 	}
 	gen.Prop(t, "alterations", gen.N(6000, 250000), func(t *rapid.T) {
@@ -339,6 +341,14 @@ func TestC03(t *testing.T) {
 		// Optionally the signed document is bad / good while the unsigned payload says the opposite.
 		signedBad := rapid.IntRange(0, 2).Draw(t, "signedBad")
 		how := rapid.IntRange(0, 3).Draw(t, "how")
+		if strings.HasPrefix(alt, "exact-key-unsigned-other-key-signed") {
+			// the unsigned payload under the exact key says "good", the signed bytes elsewhere say "bad"; mostly with
+			// both of the same length (another FMSPC / MRSIGNER), so that one cannot be told from the other by size
+			signedBad = 1
+			if rapid.IntRange(0, 3).Draw(t, "equalLength") > 0 {
+				how = 1
+			}
+		}
 		goodRaw := k.render(w)
 		bad := *w
 		// deep-copy the documents that makeBad touches
@@ -467,6 +477,35 @@ func TestC03(t *testing.T) {
 				pemB := pem.EncodeToMemory(&pem.Block{Type: "CERTIFICATE", Bytes: der})
 				resp.Header = map[string][]string{k.hdr: {url.QueryEscape(string(pemB) + string(w.PKI.Root.PEM))}}
 				resp.Body = gen.SignedBody(k.member, signedRaw, other.Key)
+			}
+		case "exact-key-unsigned-other-key-signed-after":
+			other := rapid.SampledFrom([]string{"zzz", "advisory", k.member + "2", "signedData", "x"}).Draw(t, "otherKey")
+			resp.Body = body(mem(k.member, unsignedRaw), sigm("signature", sigHex), mem(other, signedRaw))
+			if rapid.Bool().Draw(t, "sigLast") {
+				resp.Body = body(mem(k.member, unsignedRaw), mem(other, signedRaw), sigm("signature", sigHex))
+			}
+			if len(unsignedRaw) == len(signedRaw) {
+				gen.Class("forged-member-has-the-length-of-the-signed-one")
+			}
+		case "exact-key-unsigned-other-key-signed-before":
+			other := rapid.SampledFrom([]string{"aaa", "advisory", k.member + "2", "signedData"}).Draw(t, "otherKey")
+			resp.Body = body(mem(other, signedRaw), mem(k.member, unsignedRaw), sigm("signature", sigHex))
+		case "foreign-signer-not-yet-valid", "foreign-signer-expired", "foreign-signer-not-yet-valid-header-genuine-root":
+			// a foreign hierarchy whose signing certificate is out of date at the judging time: "expired / not yet
+			// valid" must not be mistaken for "valid apart from its dates" — no path to the trusted roots was ever found
+			win := gen.Window{NotBefore: k.at(w).Add(time.Hour), NotAfter: gen.Wide.NotAfter.AddDate(1, 0, 0)}
+			if alt == "foreign-signer-expired" {
+				win = gen.Window{NotBefore: gen.Wide.NotBefore.AddDate(-1, 0, 0), NotAfter: k.at(w).Add(-time.Hour)}
+			}
+			pf := gen.NewPKI(gen.PKISpec{Seed: "pki-foreign-dated/" + alt + "/" + k.at(w).Format(time.RFC3339), TcbW: win, QeW: win})
+			fs := pf.TcbSig
+			if k.name == "qe" {
+				fs = pf.QeSig
+			}
+			resp.Body = gen.SignedBody(k.member, signedRaw, fs.Key)
+			resp.Header = map[string][]string{k.hdr: {gen.IssuerChainHeader(fs, pf.Root)}}
+			if alt == "foreign-signer-not-yet-valid-header-genuine-root" {
+				resp.Header = map[string][]string{k.hdr: {gen.IssuerChainHeader(fs, w.PKI.Root)}}
 			}
 		case "dup-member-after":
 			resp.Body = body(mem(k.member, signedRaw), mem(variant(k.member), unsignedRaw), sigm("signature", sigHex))
